@@ -163,7 +163,8 @@ def inject_law(case):
 UTC = dt.timezone.utc
 TEXT = st.text(st.one_of(st.characters(min_codepoint=0x20, max_codepoint=0x7E), st.sampled_from(list("\n\n\\'\"\t é中\U0001F600")),
                          st.characters(blacklist_categories=("Cs", "Cc"))), max_size=12)
-DATETIMES = st.datetimes(min_value=dt.datetime(1970, 1, 2), max_value=dt.datetime(2100, 1, 1))
+DATETIMES = st.one_of(st.datetimes(min_value=dt.datetime(1970, 1, 2), max_value=dt.datetime(2100, 1, 1)),
+                      st.datetimes(min_value=dt.datetime(1902, 1, 1), max_value=dt.datetime(1969, 12, 31, 23, 59, 59, 999999)))  # before the epoch: negative, fractional timestamps
 
 
 def leaf(binary_only_dates=False):
